@@ -263,9 +263,13 @@ def tol_for(cfg, kappa, maxdim, with_factor=True):
 
 
 def rel_err(got, exp):
+    """Relative error in the Frobenius norm. Norms below 1e-30 are compared absolutely against that floor: float32 data
+    of that magnitude lives in the denormal range (products underflow), where a relative bound is meaningless."""
     d = float((got - exp).norm())
     n = float(exp.norm())
-    return d / n if n > 0 else (0.0 if d == 0 else float('inf'))
+    if n == 0:
+        return 0.0 if d <= 1e-30 else float('inf')
+    return d / max(n, 1e-30)
 
 
 def call_case(res, fn, *args, case=None, **kw):
